@@ -281,13 +281,18 @@ func init() {
 				return waitForBlock, nil
 			case processedBlockEv:
 				if data.err != nil {
+					// The peers that delivered the two blocks may be gone by now
+					// (removed while the blocks were being verified).
 					first, second, _ := fsm.pool.FirstTwoBlocksAndPeers()
-					fsm.logger.Error("error processing block", "err", data.err,
-						"first", first.block.Height, "second", second.block.Height)
-					fsm.logger.Error("send peer error for", "peer", first.peer.ID)
-					fsm.toBcR.sendPeerError(data.err, first.peer.ID)
-					fsm.logger.Error("send peer error for", "peer", second.peer.ID)
-					fsm.toBcR.sendPeerError(data.err, second.peer.ID)
+					fsm.logger.Error("error processing block", "err", data.err, "height", fsm.pool.Height)
+					if first != nil {
+						fsm.logger.Error("send peer error for", "peer", first.peer.ID)
+						fsm.toBcR.sendPeerError(data.err, first.peer.ID)
+					}
+					if second != nil {
+						fsm.logger.Error("send peer error for", "peer", second.peer.ID)
+						fsm.toBcR.sendPeerError(data.err, second.peer.ID)
+					}
 					// Remove the first two blocks. This will also remove the peers
 					fsm.pool.InvalidateFirstTwoBlocks(data.err)
 				} else {
